@@ -263,7 +263,9 @@ def main(argv):
     if new:
         return 1
     frac_excl = len(excluded) / max(1, len(shards))
-    if unmet or evaluations == 0 or n_nontrivial < 2 or frac_excl > 0.34:
+    # a shard that crashed or hung on both attempts is never folded into "held":
+    # a deadlock introduced in the library shows up exactly like that
+    if unmet or evaluations == 0 or n_nontrivial < 2 or excluded:
         why = ';'.join(unmet) or f'excluded_shards={len(excluded)}/{len(shards)}'
         print(f"INCONCLUSIVE property={prop} reason={why}")
         for e in excluded[:3]:
